@@ -7,6 +7,7 @@ use std::panic::{catch_unwind, AssertUnwindSafe};
 
 mod ops;
 mod ops2;
+mod ops3;
 
 fn main() {
     std::panic::set_hook(Box::new(|_| {}));
